@@ -70,6 +70,11 @@ def text_cases(rng, tier):
         recs += ['{"type":"record","name":"R%d","fields":[{"name":"a","type":"R%d"},{"name":"b","type":"R%d"}]}' % (i, i - 1, i - 1) for i in range(1, n + 1)]
         out.append("[" + ",".join(recs) + "]")
         out.append('{"type":"record","name":"Top","fields":[{"name":"u","type":[' + ",".join(recs) + ']},{"name":"again","type":"R%d"}]}' % n)
+    # attributes the library ignores, holding values a lenient first pass skips without looking inside
+    for junk in ("[" * 200 + "]" * 200, '{"a":' * 200 + "1" + "}" * 200, "1e999", "-1e999", '"\\ud800"', '"\\udc00\\ud800"', "123456789012345678901234567890", "[1e999]"):
+        out.append('{"type":"record","name":"R","fields":[{"name":"f","type":"int","default":%s}]}' % junk)
+        out.append('{"type":"record","name":"R","doc":%s,"fields":[{"name":"f","type":"int"}]}' % junk)
+        out.append('{"type":"enum","name":"E","symbols":["A"],"custom":%s}' % junk)
     out.append('"' + "n" * (1 << 20) + '"')
     out.append('{"type":"record","name":"' + "N" * (1 << 20) + '","fields":[]}')
     out.append('{"type":"fixed","name":"F","size":18446744073709551615}')
@@ -140,13 +145,16 @@ def run(tier, seed):
                 node["variants"] = [key() for _ in range(rng.randrange(0, 4))]
             elif k == "record":
                 node.update(name=scopes.T(rng.choice(["", "x", ".x", "a.", "a..b", "a.x", f"n{i}"])),
-                            fields=[{"n": scopes.T(rng.choice(["f", "g", ""])), "t": key()} for _ in range(rng.randrange(0, 3))])
+                            fields=[{"n": scopes.T(rng.choice(["f", "g", "", "f", "h"])), "t": key()} for _ in range(rng.randrange(0, 5))])
             elif k == "enum":
                 node.update(name=scopes.T(rng.choice(["", "E", "a.E", f"e{i}"])), symbols=[scopes.T(s) for s in rng.choice([[], ["A"], ["A", "A"], ["A", "B"]])])
             elif k == "fixed":
                 node.update(name=scopes.T(rng.choice(["F", f"f{i}"])), size=rng.choice([0, 1, 11, 12, 16, 17]))
             nodes.append(node)
         extra.append(nodes)
+    # records whose schema repeats a field name (they can be built and frozen): using them must stay safe
+    for names in (["a", "a", "b", "c"], ["a", "b", "a"], ["x", "x"], ["a", "b", "b", "c", "c"]):
+        extra.append([{"k": "record", "lt": "none", "name": scopes.T("Dup"), "fields": [{"n": scopes.T(nm), "t": 2} for nm in names]}, {"k": "long", "lt": "none"}])
     ecmds = []
     for nodes in extra:
         for what in ("fp", "json", "freeze"):
